@@ -4,6 +4,7 @@ import (
 	"encoding/binary"
 	"encoding/hex"
 	"errors"
+	"fmt"
 
 	"github.com/jcmturner/gofork/x/crypto/pbkdf2"
 	"github.com/jcmturner/gokrb5/v8/crypto/etype"
@@ -11,6 +12,10 @@ import (
 
 const (
 	s2kParamsZero = 4294967296
+	// maxIterations is an implementation limit on the PBKDF2 iteration count accepted in string-to-key
+	// parameters, which are chosen by the peer (the KDC's PA-ETYPE-INFO2). It is the limit MIT krb5 applies
+	// (MAX_ITERATION_COUNT); the default is 4096 and 2^24 iterations already take several seconds.
+	maxIterations = 0x1000000
 )
 
 // StringToKey returns a key derived from the string provided according to the definition in RFC 3961.
@@ -18,6 +23,10 @@ func StringToKey(secret, salt, s2kparams string, e etype.EType) ([]byte, error) 
 	i, err := S2KparamsToItertions(s2kparams)
 	if err != nil {
 		return nil, err
+	}
+	// Zero stands for 2^32 iterations (RFC 3962 section 4), which is far above the limit too.
+	if i == 0 || i >= maxIterations {
+		return nil, fmt.Errorf("s2kparams iteration count %d is zero (meaning 2^32) or not below the maximum of %d accepted", i, maxIterations)
 	}
 	return StringToKeyIter(secret, salt, i, e)
 }
